@@ -403,8 +403,28 @@ func (w *c09World) hostile() []*c09Vote {
 		if n >= 2 {
 			hs = append(hs, w.vote("multi-two-signers-honest-first", B, w.genuine(other, B), w.genuine(last, B)))
 		}
+	} else {
+		// BLS12: signature objects without any participant. The aggregate of no keys is the identity, so the
+		// point at infinity with an empty bitfield VERIFIES (bls12 Verify has no "no participants" test); an
+		// empty bitfield with any other point does not. Neither is a vote of anybody.
+		inf := make([]byte, 96)
+		inf[0] = 0xc0 // compressed form of the point at infinity
+		hs = append(hs,
+			w.blsVote("bls-no-participants-infinity", B, inf),
+			w.blsVote("bls-no-participants-genuine-point", B, w.genuine(last, B).raw),
+		)
 	}
 	return hs
+}
+
+// blsVote: a partial certificate whose BLS aggregate has the given point and an empty participant bitfield
+func (w *c09World) blsVote(kind string, names *c09Block, point []byte) *c09Vote {
+	var bf crypto.Bitfield
+	sig, err := crypto.RestoreBLS12AggregateSignature(point, bf)
+	if err != nil {
+		panic(err)
+	}
+	return &c09Vote{kind: kind, pc: hotstuff.NewPartialCert(sig, names.blk.Hash()), hash: names.id, sigs: nil, sender: hotstuff.ID(w.ids[w.n-1])}
 }
 
 // ---------------------------------------------------------------------------------------------
@@ -1374,6 +1394,49 @@ func TestVerifC09(t *testing.T) {
 				}
 				w.syncCase(sPerm, fmt.Sprintf("perm-equivocation-%d", vi), va.store, []*c09Block{w.blocks["R"]}, evs)
 			})
+		}
+	}
+
+	// (a6) every scheme, every position: the honest votes in a fixed order (and reversed), each hostile vote of the
+	// scheme's alphabet (signature objects with no participant, with two or more, with a participant that is not
+	// the sender, ...) put before the first, in between, as the would-be quorum-completing vote, and after; half
+	// of the honest votes are relayed (VoteMsg.ID differs from the signer)
+	for _, scheme := range []string{crypto.NameEDDSA, crypto.NameBLS12} {
+		for _, n := range []int{4, 7} {
+			if scheme == crypto.NameBLS12 && n == 7 && !deep {
+				continue
+			}
+			w := world(scheme, n)
+			B := w.blocks["B"]
+			base := []*c09Block{w.blocks["G"], B, w.blocks["C"], w.blocks["O"], w.blocks["L3"]}
+			var hon []c09Ev
+			for i := 1; i <= n; i++ {
+				x := w.honest(i, B)
+				if i%2 == 0 {
+					x.sender = hotstuff.ID(w.ids[i%n])
+				}
+				hon = append(hon, V(x))
+			}
+			for _, hv := range w.hostile() {
+				for rev := 0; rev < 2; rev++ {
+					order := append([]c09Ev{}, hon...)
+					if rev == 1 {
+						for i, j := 0, len(order)-1; i < j; i, j = i+1, j-1 {
+							order[i], order[j] = order[j], order[i]
+						}
+					}
+					for pos := 0; pos <= len(order); pos++ {
+						if n == 7 && pos > w.q {
+							continue
+						}
+						evs := []c09Ev{Hi(w.blocks["L3"])}
+						evs = append(evs, order[:pos]...)
+						evs = append(evs, V(hv))
+						evs = append(evs, order[pos:]...)
+						w.syncCase(sPerm, "positions-"+scheme, base, []*c09Block{w.blocks["R"]}, evs)
+					}
+				}
+			}
 		}
 	}
 
